@@ -53,7 +53,9 @@ def evaluate(name, lane_dir, ids, tier, with_c07):
         return res
     env = dict(os.environ)
     env.update({"VERIF_EVAL_DIR": f"{lane_dir}/out", "CARGO_NET_OFFLINE": "true", "VERIF_SEED": env.get("VERIF_SEED", "0")})
-    rc, out = sh("cargo build --release --offline --quiet --bin verif --bin cttrace 2>&1 | tail -20", cwd=f"{lane_dir}/harness", env=env, timeout=1800)
+    bins = "--bin verif --bin cttrace" if (with_c07 or name.startswith("C07")) else "--bin verif"
+    env.setdefault("VERIF_THREADS", "6")
+    rc, out = sh(f"cargo build --release --offline --quiet {bins} 2>&1 | tail -20", cwd=f"{lane_dir}/harness", env=env, timeout=1800)
     if not os.path.exists(f"{lane_dir}/target/release/verif") or "error" in out:
         res["error"] = "harness does not build against the changed tree: " + out[-600:]
         return res
